@@ -119,10 +119,12 @@ def break_ops(m: Mol, rnd):
     # transition list of wrong length
     for e in stos:
         n = sum(len(t.descs) for t in e.rep + e.end)
-        for delta in (-1, 1):
+        for delta, where in ((-1, "rep"), (1, "rep"), (-1, "end"), (1, "end"), (2, "end")):
             m2 = copy.deepcopy(m)
             e2 = [x for x in m2.elems if isinstance(x, Sto)][stos.index(e)]
-            d = e2.rep[0].descs[-1]
+            if where == "end" and not e2.end:
+                continue
+            d = e2.rep[0].descs[-1] if where == "rep" else e2.end[-1].descs[0]
             from fractions import Fraction
             d.tr = [Fraction(1)] * max(2, n + delta) if n + delta != n and max(2, n + delta) != n else None
             d.w = None
